@@ -3,7 +3,7 @@ import json, glob, re, os
 rows = {}
 for f in ['/verif/.work/mutfinal.txt']:
     for line in open(f):
-        m = re.match(r'(C\d+[bcdef]?) rc=(\d) wall=(\d+)s :: (.*)', line)
+        m = re.match(r'(C\d+[bcdefg]?) rc=(\d) wall=(\d+)s :: (.*)', line)
         if not m:
             continue
         key, rc, wall, rest = m.groups()
